@@ -13,7 +13,7 @@ import (
 func init() {
 	register(Property{
 		ID: "C03",
-		Explanation: "Decided statically: R1 every LocalNameOf(p) in the naming system is dominated by an AddType on the same tracker for the same package path (no qualifier is printed for an unregistered package); R2 the import block is printed from the very tracker the file's namer registers into (single-store field, same field load at both ends) and the printer emits one line per key with the name from the same map, without mutating it; R3 registration happens only in the namer (and std's init, on another tracker) and is always followed by the LocalNameOf whose result is printed; R4 the two tracker maps are written only in one function, only on the absent edge of both lookups (a binding is never overwritten, a name never bound to two paths), and never deleted from; R5 the name committed is dominated by token.IsIdentifier(name) == true (valid, non-keyword); R6 every normal return of the storing function passes the 'already bound' edge or the store (a name is always committed); R7 each registration is dominated by the path differing from the namer's own package path, which InitWith binds to the target package's path. R8 no Frag/IsNil method of pkg/gengo/snippet writes its receiver or other non-local memory (a snippet that memoised what a first rendering resolved would skip the registration when rendered into another file). NOT decided: that the rendered body really uses every registered name (a caller may discard a rendered fragment); termination of the candidate search is argued, not proven.",
+		Explanation: "Decided statically: R1 every LocalNameOf(p) in the naming system is dominated by an AddType on the same tracker for the same package path (no qualifier is printed for an unregistered package); R2 the import block is printed from the very tracker the file's namer registers into (single-store field, same field load at both ends) and the printer emits one line per key with the name from the same map, without mutating it; R3 registration happens only in the namer (and std's init, on another tracker) and is always followed by the LocalNameOf whose result is printed; R4 the two tracker maps are written only in one function, only on the absent edge of both lookups (a binding is never overwritten, a name never bound to two paths), and never deleted from; R5 the name committed is dominated by token.IsIdentifier(name) == true (valid, non-keyword); R6 every normal return of the storing function passes the 'already bound' edge or the store (a name is always committed); R7 each registration is dominated by the path differing from the namer's own package path, which InitWith binds to the target package's path. R8 no Frag/IsNil method of pkg/gengo/snippet writes its receiver or other non-local memory (a snippet that memoised what a first rendering resolved would skip the registration when rendered into another file). R2 also: every iteration of the printing loop emits exactly one `name \"path\"` line (a path written without the tracker's name is bound under the package's declared name); R9 every name the namer hands out went through the argument rewriter, which is what registers the packages of a generic instantiation's type arguments. NOT decided: that the rendered body really uses every registered name (a caller may discard a rendered fragment); termination of the candidate search is argued, not proven.",
 		Assumptions: commonAssumptions,
 		Run:         runC03,
 	})
@@ -284,6 +284,12 @@ func c03R2(p *core.Program, r *core.Report) {
 		}
 	}
 	r.Check(okPrint && len(wi) == 1, rule, wf, "the import block is printed from the file's own tracker", wf.Node().Pos(), "writeImports(_, ff.imports.Imports())", "the import block is printed from another source than ff.imports.Imports()")
+	importBlockRule(p, r, rule)
+}
+
+// importBlockRule: the printer of the import block (shared by C03.R2 and C18.R6:
+// "foreign types correctly imported").
+func importBlockRule(p *core.Program, r *core.Report, rule string) {
 	// writeImports: one line per key, name from the same map, no mutation
 	w := p.FuncByName("pkg/gengo", "writeImports")
 	if w == nil {
@@ -314,20 +320,40 @@ func c03R2(p *core.Program, r *core.Report) {
 		return true
 	})
 	lineOK := false
+	var goodLine *ast.CallExpr
+	var lineLoop *ast.RangeStmt
 	for _, c := range core.CallsTo(info, w.Body, true, "fmt.Fprintf") {
 		if len(c.Args) == 4 {
-			ix, ok := ast.Unparen(c.Args[2]).(*ast.IndexExpr)
+			ne, _ := core.Resolve(info, w.Body, c.Args[2])
+			ix, ok := ast.Unparen(ne).(*ast.IndexExpr)
 			if ok && core.VarOf(info, ix.X) == mp && core.SameRef(info, ix.Index, c.Args[3]) {
 				if s, isC := core.ConstString(info, c.Args[1]); isC && strings.Contains(s, `%s "%s"`) {
 					// the path variable ranges over the collected keys
 					if v := core.VarOf(info, c.Args[3]); v != nil {
 						if d, ok := core.SingleDef(info, w.Body, v); ok && d.Kind == "range-value" {
 							lineOK = true
+							goodLine = c
+							lineLoop, _ = d.Stmt.(*ast.RangeStmt)
 						}
 					}
 				}
 			}
 		}
+	}
+	// every iteration emits that line: a path printed without its name (or not at all) binds
+	// the package's declared name, which need not be the name the body uses
+	if lineOK && lineLoop != nil {
+		wg := graph(w)
+		without, twice := exactlyOnePerIteration(wg, lineLoop, func(n ast.Node) bool {
+			for _, c := range core.Calls(n, true) {
+				if c == goodLine {
+					return true
+				}
+			}
+			return false
+		}, nil)
+		r.Check(!without && !twice, rule, w, "every registered path gets exactly one `name \"path\"` line", lineLoop.Pos(), "each iteration of the printing loop passes the line once",
+			"an iteration of the import-printing loop can end without printing `name \"path\"` (or print it twice): an import written without the tracker's name is bound under the package's declared name, which the rendered qualifiers do not use")
 	}
 	r.Check(lineOK && !mutated && mp != nil, rule, w, "one `name \"path\"` line per registered path, name taken from the same map", w.Node().Pos(), "Fprintf(w, `%s \"%s\"`, m[p], p) for p in the key list; map not mutated", "the import lines are not `m[p] \"p\"` for every key of the tracker's map (or the map is mutated while printing)")
 	// keys: collected from the map and sorted (also C04)
